@@ -245,7 +245,13 @@ func vsBlock(c *vsCase, dir string, o map[string]interface{}) {
 		rcfg = vsCfg(c.CfgRead)
 	}
 	o["has_receipts"] = cdb.checkExistReceipts(key, c.BlockNo)
-	if len(rl) > 0 {
+	o["v2_write"], o["v2_read"] = wcfg.IsV2Fork(c.BlockNo), rcfg.IsV2Fork(c.BlockNo)
+	if len(rl) > 0 && wcfg.IsV2Fork(c.BlockNo) != rcfg.IsV2Fork(c.BlockNo) {
+		// The restarted node would decode these receipts with the OTHER format version.  The decoders
+		// allocate make([]*Event, evCount) from whatever bytes they find there (gigabytes), so the read is
+		// not executed; the mismatch itself is the observation (CheckCompatibility exists to refuse it).
+		o["receipts_skipped_version_mismatch"] = true
+	} else if len(rl) > 0 {
 		func() {
 			defer func() {
 				if r := recover(); r != nil {
